@@ -43,6 +43,23 @@ type Report struct {
 	canaryBad  []string
 	lines      []string
 	newDisch   []string
+	boundedRes []boundedResult
+}
+
+// bounded records the results of the bounded stand-ins (never counted as discharged).
+func (r *Report) bounded(res []boundedResult) {
+	r.boundedRes = res
+	for _, b := range res {
+		if b.OK {
+			r.say("BOUNDED: %s %s (bounded check, not a proof)", b.Name, b.Detail)
+			continue
+		}
+		path := filepath.Join(r.vd, "replay", r.prop, sanitize(b.Name)+".bounded.txt")
+		os.MkdirAll(filepath.Dir(path), 0755)
+		os.WriteFile(path, []byte("bounded check failed on the real code: "+b.Name+" "+b.Detail+"\n"), 0644)
+		r.say("VIOLATION property=%s replay=%s obligation=bounded:%s %s", r.prop, path, b.Name, b.Detail)
+		r.violations = append(r.violations, "bounded:"+b.Name)
+	}
 }
 
 func newReport(eng *Engine, prop, tier string, seed int, vd string) *Report {
@@ -298,6 +315,7 @@ func (r *Report) writeEvidence() {
 			"vacuity":                  map[string]interface{}{"covers_sat": r.coverOK, "canaries_refuted": r.canaryOK, "vacuous": append(r.vacuous, r.canaryBad...)},
 			"out_of_subset_notes":      sortedKeys(notes),
 			"all_obligations":          r.records,
+			"bounded":                  r.boundedRes,
 			"load_s":                   r.loadS,
 		},
 		"assumptions": sortedKeys(assume),
